@@ -5,7 +5,7 @@ import json
 
 CHECKS = {
  "C01": ("differential vs. reference interpreter over tape-decoded random programs (proptest), shrunk on the tape",
-         "Random programs over the whole documented feature set (closures in loops, aliasing, shadowing, methods, destructuring, interpolation ...), stdout and success/failure class compared with an independent reference interpreter; 30k programs per quick run through the real binary, millions in-process in the thorough tier. Exploration: finds feature-interaction defects, cannot prove absence.", "4/C01"),
+         "Random programs over the whole documented feature set (closures in loops, aliasing, shadowing, methods, destructuring, interpolation ...), stdout and success/failure class compared with an independent reference interpreter; 60k programs per quick run through the real binary, millions in-process in the thorough tier. Exploration: finds feature-interaction defects, cannot prove absence.", "4/C01"),
  "C02": ("generated no-crash search: exhaustive alias-shape x operation matrix, boundary-integer grid, multi-byte literals, hostile random programs (proptest)",
          "Exit status must be 0 or 103 and stderr free of panic text for every generated program inside the documented resource bounds; the matrix part is exhaustive over its pool.", "4/C02"),
  "C03": ("fuzzing of the front end: exhaustive short strings over a 50-symbol alphabet, random text, token-level mutation and truncation of valid programs, invalid UTF-8; totality/format oracle",
